@@ -24,9 +24,17 @@ extern "C" double k_pow(double, double);
 #endif
 extern "C" CVS_STEP_T g_step_rel, g_step_abs;
 extern "C" int g_sim_continuing, g_sim_running;
+extern "C" double k_boltzmann(); extern "C" double k_target_temperature(); extern "C" double k_dt();
 struct colvarproxy_stub_t {
   bool simulation_continuing() const { return g_sim_continuing != 0; }
   bool simulation_running() const { return g_sim_running != 0; }
+#ifdef CVS_SREAL
+  sreal boltzmann() { double v = k_boltzmann(); sreal r(v); return r; }
+  sreal target_temperature() { double v = k_target_temperature(); sreal r(v); return r; }
+#else
+  double boltzmann() { return k_boltzmann(); }
+  double target_temperature() { return k_target_temperature(); }
+#endif
 };
 struct colvarmodule;
 struct colvarmodule_main_t { colvarproxy_stub_t *proxy; };
@@ -57,6 +65,7 @@ struct colvarmodule {
 #endif
   typedef CVS_STEP_T step_number;   // real: long long; a unit may narrow it (stated as a bound on step numbers)
   static colvarmodule_main_t *main() { return &cvs_main; }
+  static colvarproxy_stub_t *proxy;
   static step_number step_relative() { return g_step_rel; }
   static step_number step_absolute() { return g_step_abs; }
   static bool debug() { return g_debug != 0; }
@@ -75,5 +84,6 @@ struct colvarmodule {
   static real fabs(real const &x) { return x < 0.0 ? -x : x; }
 #endif
 };
+colvarproxy_stub_t *colvarmodule::proxy = &cvs_proxy;
 #define cvm colvarmodule
 #endif
